@@ -77,7 +77,7 @@ func init() {
 		})
 	clusterCheck("C05",
 		func() []Unit {
-			return append([]Unit{{Name: "enum-commitment", Enum: enumC05}}, scUnits(1, "write3", "write4", "crash3", "crash4", "member", "member-race", "fig8", "fig8-batch1", "transfer")...)
+			return append([]Unit{{Name: "enum-commitment", Enum: enumC05}}, cat(scUnits(1, "write3", "write4", "crash3", "crash4", "member", "member-race", "fig8", "fig8-batch1", "transfer"), scUnits(0, "member-trunc6"))...)
 		},
 		func() []Unit {
 			return append([]Unit{{Name: "enum-commitment", Enum: enumC05}}, scUnits(2, "write3", "write4", "crash3", "crash4", "member", "member-race", "fig8", "fig8-batch1", "transfer", "snap3")...)
